@@ -68,6 +68,8 @@ type Case struct {
 	// LocalClose: the application has already sent its own Close frame and keeps reading until
 	// the peer's Close arrives (RFC 6455 7.1.2: the peer's frames are still to be received)
 	LocalClose bool `json:"local_close,omitempty"`
+	// Compress: permessage-deflate is negotiated in the opening handshake (RSV1 legal on the first frame of a data message)
+	Compress bool `json:"compress,omitempty"`
 }
 
 type stats struct {
@@ -100,7 +102,10 @@ func runCase(c Case) (st stats, err error) {
 		model = frames[:n]
 		st.partial = n < len(frames) && (n == 0 && c.Cut > 0 || n > 0 && c.Cut > ends[n-1])
 	}
-	want := wsref.Receive(model, c.Server, c.Limit)
+	want := wsref.ReceiveExt(model, c.Server, c.Limit, c.Compress)
+	if want.BadDeflate {
+		return st, nil // outside the model
+	}
 	st.event, st.frames = want.Event, len(model)
 	st.delivered, st.pongs = len(want.Delivered), len(want.Pongs)
 	for _, f := range model {
@@ -112,20 +117,20 @@ func runCase(c Case) (st stats, err error) {
 	var in io.Reader = bytes.NewReader(wire)
 	in = xport.Segment(in, c.SegKind, c.Seg)
 	out := &wsx.Sink{}
-	cfg := wsx.Config{ReadBuf: c.ReadBuf, WriteBuf: 512}
+	cfg := wsx.Config{ReadBuf: c.ReadBuf, WriteBuf: 512, Compression: c.Compress}
 	var conn *websocket.Conn
 	var hs wsx.Handshake
 	if c.Server {
-		conn, _, hs, err = wsx.NewServer(cfg, false, in, out)
+		conn, _, hs, err = wsx.NewServer(cfg, c.Compress, in, out)
 	} else {
-		conn, _, hs, err = wsx.NewClient(cfg, false, in, out)
+		conn, _, hs, err = wsx.NewClient(cfg, c.Compress, in, out)
 	}
 	if err != nil {
 		return st, fmt.Errorf("handshake: %v", err)
 	}
 	skip := out.Len()
 	if c.Server {
-		if e := hs.Check(false); e != nil {
+		if e := hs.Check(c.Compress); e != nil {
 			return st, e
 		}
 	}
@@ -159,7 +164,7 @@ func runCase(c Case) (st stats, err error) {
 		if g.Op != w.Op || !bytes.Equal(g.Payload, w.Payload) {
 			return st, fmt.Errorf("message %d: type %d with %d bytes, a conformant receiver delivers type %d with %d bytes", i, g.Op, len(g.Payload), w.Op, len(w.Payload))
 		}
-		if c.Limit > 0 && int64(len(g.Payload)) > c.Limit {
+		if c.Limit > 0 && !c.Compress && int64(len(g.Payload)) > c.Limit { // (with compression the limit counts the bytes on the wire: the model above decides)
 			return st, fmt.Errorf("message %d of %d bytes delivered with read limit %d", i, len(g.Payload), c.Limit)
 		}
 	}
@@ -272,7 +277,8 @@ func closeBody(code int, reason []byte) []byte {
 }
 
 func genCase(t *rapid.T) Case {
-	c := Case{Server: rapid.Bool().Draw(t, "server"), Cut: -1, ReadBuf: rapid.SampledFrom([]int{0, 1, 125, 126, 300, 4096}).Draw(t, "rbuf")}
+	c := Case{Server: rapid.Bool().Draw(t, "server"), Cut: -1, ReadBuf: rapid.SampledFrom([]int{0, 1, 14, 20, 64, 124, 125, 126, 300, 4096}).Draw(t, "rbuf")}
+	c.Compress = rapid.IntRange(0, 2).Draw(t, "compress") == 0
 	good := c.Server // right mask flag for the role
 	key := func() uint32 { return rapid.Uint32().Draw(t, "key") }
 	n := rapid.IntRange(1, 14).Draw(t, "nitems")
@@ -296,9 +302,36 @@ func genCase(t *rapid.T) Case {
 			if rapid.Bool().Draw(t, "msizek") {
 				size = rapid.IntRange(0, 400).Draw(t, "msizeu")
 			}
-			msgSizes = append(msgSizes, size)
 			parts := rapid.IntRange(1, 4).Draw(t, "parts")
 			op := byte(rapid.IntRange(1, 2).Draw(t, "mop"))
+			if c.Compress && rapid.Bool().Draw(t, "deflated") {
+				// a compressed message: RSV1 on its first frame, the DEFLATE stream cut into the fragments
+				plain := rtmpx.Fill(min(size, 3000), rapid.Uint64().Draw(t, "dfill"))
+				if rapid.Bool().Draw(t, "flat") {
+					plain = bytes.Repeat([]byte("abcd"), len(plain)/4)
+				}
+				comp := wsref.Deflate(plain, rapid.IntRange(1, 9).Draw(t, "dlevel"))
+				msgSizes = append(msgSizes, len(comp))
+				for p := 0; p < parts; p++ {
+					l := len(comp)
+					if p < parts-1 {
+						l = rapid.IntRange(0, len(comp)).Draw(t, "dplen")
+					}
+					f := F{Fin: p == parts-1, Op: op, Body: append(ev.Hex{}, comp[:l]...)}
+					comp = comp[l:]
+					if p == 0 {
+						f.RSV = 4
+					} else {
+						f.Op = 0
+					}
+					add(f)
+					if p < parts-1 && rapid.IntRange(0, 2).Draw(t, "dinter") == 0 {
+						ctrl()
+					}
+				}
+				continue
+			}
+			msgSizes = append(msgSizes, size)
 			left := size
 			for p := 0; p < parts; p++ {
 				l := left
@@ -332,7 +365,12 @@ func genCase(t *rapid.T) Case {
 			switch rapid.IntRange(0, 4).Draw(t, "closek") {
 			case 0:
 			case 1:
-				body = closeBody(rapid.SampledFrom(invalidCodes).Draw(t, "badcode"), nil)
+				// an invalid status code, with a reason of any length behind it
+				var r []byte
+				if rapid.Bool().Draw(t, "badcodereason") {
+					r = bytes.Repeat([]byte("why "), 31)[:rapid.SampledFrom([]int{1, 10, 90, 97, 98, 99, 110, 122, 123}).Draw(t, "bcrlen")]
+				}
+				body = closeBody(rapid.SampledFrom(invalidCodes).Draw(t, "badcode"), r)
 			case 2:
 				// a reason that is not UTF-8, of any length a close frame can carry (2+123 bytes)
 				n := rapid.SampledFrom([]int{1, 2, 3, 20, 50, 82, 83, 86, 100, 122, 123}).Draw(t, "badlen")
@@ -367,7 +405,18 @@ func genCase(t *rapid.T) Case {
 		default: // one rule violation
 			switch rapid.IntRange(0, 8).Draw(t, "viol") {
 			case 0:
-				add(F{Fin: true, Op: byte(rapid.IntRange(1, 2).Draw(t, "vop")), RSV: rapid.SampledFrom([]byte{1, 2, 4, 7}).Draw(t, "rsv"), Len: 3})
+				rsv := rapid.SampledFrom([]byte{1, 2, 4, 7, 3, 5, 6}).Draw(t, "rsv")
+				if c.Compress && rsv == 4 {
+					// with permessage-deflate RSV1 alone is legal on a first data frame; RSV1 on control and continuation
+					// frames (RFC 7692 6.1 says fail; this library, like its upstream, lets it pass) is not part of the
+					// statement, which speaks of RFC 6455: not generated, not judged
+					rsv = rapid.SampledFrom([]byte{5, 6, 7, 1, 2, 3}).Draw(t, "rsvc")
+				}
+				vf := F{Fin: true, Op: byte(rapid.IntRange(1, 2).Draw(t, "vop")), RSV: rsv, Len: 3}
+				if rapid.IntRange(0, 2).Draw(t, "rsvonctl") == 0 && rsv&3 != 0 {
+					vf.Op = rapid.SampledFrom([]byte{9, 10}).Draw(t, "rsvctlop")
+				}
+				add(vf)
 			case 1:
 				add(F{Fin: true, Op: rapid.SampledFrom([]byte{3, 4, 5, 6, 7, 11, 12, 15}).Draw(t, "badop"), Len: 2})
 			case 2:
